@@ -28,3 +28,23 @@ Example C04M_nonvacuous :
 Proof.
   cbv zeta. split; [cbn [repeat app]; repeat (apply Forall_cons; [cbn; auto; try lia|]); apply Forall_nil|vm_compute; repeat split].
 Qed.
+
+(* The Multi channel arc / ATOMIC (Chan/Multi.v, in lock-step with multi::channels::arc::atomic; one LOCK-FREE ring per listener) shares the
+   finding of the movable atomic Uni channel (F1): the wake decision uses the length sampled at the slot reservation while publications
+   are serialised.  Three producers overlap on listener 0's ring; all three sends answer Ok, two events are yielded, the third stays in
+   the ring with the listener's task parked and not notified, every producer idle.  Known finding class C04.multi_atomic.overlapping_sends. *)
+From RM Require Import RingInv RingProps MultiProps.
+Theorem C04_multi_arc_atomic_refuted_overlapping_sends :
+  exists progs sched,
+    let created1 := Multi.mstep 8 idz idz 1 (Multi.mstart 1 (Multi.minit 1) 0%nat MoCreate) 0%nat in
+    let s := fst (Multi.mrun 8 idz idz 1 created1 (fun t => nth t progs []) sched) in
+    map snd (Multi.mlog s) = [MCreated 0; MSendOk 3000; MSendOk 2000; MYield 0 3000; MYield 0 2000; MPending 0; MPending 0; MSendOk 1000] /\
+    tail (Multi.rings s 0%nat) - head (Multi.rings s 0%nat) = 1 /\
+    map (Multi.mthr s) [0; 1; 2; 3]%nat = [MIdle; MIdle; MIdle; MParked 0] /\
+    notified (Multi.msm s) 0%nat = false /\ keep (Multi.msm s) 0%nat = true.
+Proof.
+  exists [[MoSend 1000]; [MoSend 2000]; [MoSend 3000]; [MoDrive 0]].
+  exists (repeat 2 17 ++ [3; 3] ++ repeat 1 14 ++ [0; 0; 0] ++ repeat 3 24 ++ concat (repeat [0; 1; 2; 3] 14))%nat.
+  vm_compute. repeat split; reflexivity.
+Qed.
+Print Assumptions C04_multi_arc_atomic_refuted_overlapping_sends.
